@@ -285,11 +285,13 @@ def _generate(ctx):
                                             RuleTypes="{4}", LigLens="{2, 3, 4}", LigFirst="1", PoolSel='"own"',
                                             TextSel='"none"', CmapFormats='{"4"}', Kinds='{"cff"}')},
                  label="Names generation (simulate, ligature sets)"), "generation (ligature sets)")
-    # ... with single and alternate substitutions chained before, between and behind the ligatures
-    take(ctx.tlc("Names", cfg="NamesG9.cfg", workers=w, simulate=ctx.pick(80, 1000), depth=80, timeout=1500,
-                 files={"NamesG9.cfg": _cfg("NamesGen.cfg", Codes="{}", MinN="3", MaxN="4", MinRules="3", MaxRules="5",
-                                            RuleTypes="{1, 3, 4}", LigLens="{2, 3}", LigFirst="1", PoolSel='"own"',
-                                            TextSel='"none"', CmapFormats='{"4"}', Kinds='{"cff", "ttf"}')},
+    # ... with single and alternate substitutions chained before, between and behind the ligatures: only glyphs
+    # 0 and 1 have names, everything else is inferred through chains (a ligature glyph as the source of a later
+    # rule, the same components producing another glyph, the same ligature glyph reachable twice)
+    take(ctx.tlc("Names", cfg="NamesG9.cfg", workers=w, simulate=ctx.pick(120, 1000), depth=80, timeout=1500,
+                 files={"NamesG9.cfg": _cfg("NamesGen.cfg", Codes="{}", MinN="4", MaxN="5", MinRules="3", MaxRules="5",
+                                            RuleTypes="{1, 3, 4}", LigLens="{2}", LigFirst="1", PoolSel='"first"',
+                                            TextSel='"none"', CmapFormats='{"4"}', Kinds='{"cff"}')},
                  label="Names generation (simulate, ligature sets and chained substitutions)"),
          "generation (ligature sets, chained)")
     # every cmap subtable format the library can pick as best subtable, 1..3 mappings, BMP / astral / both
